@@ -187,6 +187,10 @@ pub fn run_dedupe(op: DedupeOp, config: DedupeConfig, log: &dyn Log) -> Result<(
         .map(|p| canonical_root(&cwd.resolve(p)))
         .collect();
 
+    // The reported paths are absolute. Relative path patterns refer to the working directory,
+    // the same as the path patterns given to `group`.
+    dedupe_config.anchor_path_patterns(&cwd);
+
     if dedupe_config.rf_over.is_none() {
         return Err(Error::from(
             "Could not extract --rf-over setting from the earlier fclones configuration. \
